@@ -8,31 +8,46 @@ def resStr {α} (r : Res α) (f : α → String) : String :=
   match r with | .ok a => "ok " ++ f a | .err => "err" | .panic => "panic"
 
 /-- canonical bytes of a wire value: map entries sorted by encoded key (what refcodec.Canon does) -/
-partial def canonW : Wire.WVal → Wire.WVal
-  | .struct fs => .struct (fs.map fun (i, v) => (i, canonW v))
-  | .list t xs => .list t (xs.map canonW)
-  | .set t xs => .set t (xs.map canonW)
+partial def canonW (sortFields : Bool := false) : Wire.WVal → Wire.WVal
+  | .struct fs =>
+      let fs' := fs.map fun (i, v) => (i, canonW sortFields v)
+      if sortFields then .struct (fs'.foldr insF []) else .struct fs'
+  | .list t xs => .list t (xs.map (canonW sortFields))
+  | .set t xs => .set t (xs.map (canonW sortFields))
   | .map k v kvs =>
-      let es := kvs.map fun (a, b) => (canonW a, canonW b)
+      let es := kvs.map fun (a, b) => (canonW sortFields a, canonW sortFields b)
       let keyed := es.map fun (a, b) => (VL.hexEncode (Wire.encW a), (a, b))
       let sorted := keyed.foldr (fun x acc => ins x acc) []
       .map k v (sorted.map (·.2))
   | w => w
-where ins (x : String × (Wire.WVal × Wire.WVal)) : List (String × (Wire.WVal × Wire.WVal)) → List (String × (Wire.WVal × Wire.WVal))
+where
+  insF (x : Nat × Wire.WVal) : List (Nat × Wire.WVal) → List (Nat × Wire.WVal)
+  | [] => [x]
+  | y :: r => if x.1 ≤ y.1 then x :: y :: r else y :: insF x r
+  ins (x : String × (Wire.WVal × Wire.WVal)) : List (String × (Wire.WVal × Wire.WVal)) → List (String × (Wire.WVal × Wire.WVal))
   | [] => [x]
   | y :: r => if x.1 ≤ y.1 then x :: y :: r else y :: ins x r
 
-def step (ps : Progs) (line : String) : Progs × String :=
+/-- units generated with `reorder_fields`: the struct layout, hence the order in which Write emits
+the fields, is permuted; their W answers are compared with the fields of every struct sorted by id -/
+abbrev St := Progs × List String
+
+def step (st : St) (line : String) : St × String :=
+  let (ps, ro) := st
   let toks := VL.toks line
+  let ro := match toks with
+    | "P" :: u :: _ :: opts => if opts.contains "reorder_fields=1" then u :: ro else ro
+    | _ => ro
   match schemaLine ps toks with
-  | some r => r
+  | some (ps', out) => ((ps', ro), out)
   | none =>
+  let r : Progs × String :=
     match toks with
     | "W" :: key :: rest =>
       match splitKey key with
       | some (u, i) => match ps.get u, parseVal rest with
         | some P, some (v, []) =>
-            (ps, resStr (Std.toW P (.struct i) v) fun w => VL.hexEncode (Wire.encW (canonW w)))
+            (ps, resStr (Std.toW P (.struct i) v) fun w => VL.hexEncode (Wire.encW (canonW (ro.contains u) w)))
         | _, _ => (ps, "bad-op")
       | none => (ps, "bad-op")
     | ["R", key, hex] =>
@@ -53,7 +68,8 @@ def step (ps : Progs) (line : String) : Progs × String :=
         | none => (ps, "bad-op")
       | none => (ps, "bad-op")
     | _ => (ps, "bad-op")
+  ((r.1, ro), r.2)
 
 end Driver.C02
 
-def main : IO Unit := Driver.stateLoop ([] : Driver.GenVL.Progs) Driver.C02.step
+def main : IO Unit := Driver.stateLoop (([], []) : Driver.C02.St) Driver.C02.step
